@@ -34,7 +34,11 @@ for p, n, t, r, h, cmd, hi in rows:
     out.append("| %s | `%s` | %s | %s | %s | %s |" % (p, n, t, r, h or "-", hi or "-"))
 det = sum(1 for r in rows if r[3] == "DETECTED")
 out += ["", "%d changes, %d detected by the quick tier of the property's check (or the tier named in meta.json `verif_check_cmd`)." % (len(rows), det), ""]
-missed = [r for r in rows if r[3] != "DETECTED"]
+missed = [r for r in rows if r[3] not in ("DETECTED", "OBSOLETE")]
+obsolete = [r for r in rows if r[3] == "OBSOLETE"]
+if obsolete:
+    out.append("Obsolete (the code they change was rewritten by a later repair; see their meta.json): " + ", ".join("`%s`" % r[1] for r in obsolete) + ".")
+    out.append("")
 if missed:
     out.append("Not detected: " + ", ".join("`%s` (%s)" % (r[1], r[0]) for r in missed) + " - see DESIGN.md section 8 for why.")
 open(os.path.join(S, "README.md"), "w").write("\n".join(out) + "\n")
